@@ -10,7 +10,8 @@ EXTENDS ArraiValue, SequencesExt
 CONSTANTS AttrNames,   \* attribute alphabet
           MaxAttrs,    \* attributes per heading
           MaxRows,     \* rows per relation
-          Depth        \* 0: all operators on a pair; >0: chains whose operands are earlier results
+          Depth,       \* 0: all operators on a pair; >0: chains whose operands are earlier results
+          Fork         \* TRUE: four literals A B C D, then P = A <&> B, X = P <&> C, Y = P <&> D (branching history)
 
 VARIABLES prog, env, done
 vars == <<prog, env, done>>
@@ -36,14 +37,17 @@ PairResults(A, B) ==
     ranks |-> {[k |-> k, r |-> Rank(A, k)] : k \in NumAttrs(A) \ {"r"}} ]
 
 Init == prog = <<>> /\ env = <<>> /\ done = FALSE
-Lit == /\ Len(prog) < 2
-       /\ \E v \in Rels : prog' = Append(prog, [k |-> "lit"]) /\ env' = Append(env, v)
+NLits == IF Fork THEN 4 ELSE 2
+\* fork histories: one-row relations over the two-attribute headings
+ForkRels == UNION {{S({t}) : t \in {u \in TuplesOf(h) : MaxRows > 1 \/ \A a \in h \ {"d"} : u.t[a] = N(1)}} : h \in {g \in Headings : Cardinality(g) = 2}}
+Lit == /\ Len(prog) < NLits
+       /\ \E v \in (IF Fork THEN ForkRels ELSE Rels) : prog' = Append(prog, [k |-> "lit"]) /\ env' = Append(env, v)
        /\ UNCHANGED done
-AllOps == /\ Depth = 0 /\ Len(prog) = 2
+AllOps == /\ Depth = 0 /\ ~Fork /\ Len(prog) = 2
           /\ prog' = Append(prog, [k |-> "allops"])
           /\ env'  = Append(env, PairResults(env[1], env[2]))
           /\ UNCHANGED done
-Full == IF Depth = 0 THEN Len(prog) = 3 ELSE Len(prog) = 2 + Depth
+Full == IF Fork THEN Len(prog) = 7 ELSE IF Depth = 0 THEN Len(prog) = 3 ELSE Len(prog) = 2 + Depth
 Ix == 1..Len(env)
 StepJoin == \E op \in JoinOps \ {"---"}, i \in Ix, j \in Ix :
               /\ prog' = Append(prog, [k |-> "join", op |-> op, i |-> i, j |-> j])
@@ -55,12 +59,19 @@ StepUnnest == \E i \in Ix : /\ "n" \in Heading(env[i]) /\ \A t \in env[i].s : Is
                                /\ \A u \in t.t["n"].s : Attrs(u) \cap (Attrs(t) \ {"n"}) = {}
               /\ prog' = Append(prog, [k |-> "unnest", i |-> i])
               /\ env'  = Append(env, Unnest(env[i], "n"))
-Step == /\ Depth > 0 /\ Len(prog) >= 2 /\ ~Full
+ForkJoin(i, j) == /\ prog' = Append(prog, [k |-> "join", op |-> "<&>", i |-> i, j |-> j])
+                  /\ env'  = Append(env, JoinOp("<&>", env[i], env[j]))
+ForkStep == /\ Fork /\ Len(prog) >= 4 /\ ~Full
+            /\ CASE Len(prog) = 4 -> ForkJoin(1, 2)
+                 [] Len(prog) = 5 -> ForkJoin(5, 3)
+                 [] Len(prog) = 6 -> ForkJoin(5, 4)
+            /\ UNCHANGED done
+Step == /\ Depth > 0 /\ ~Fork /\ Len(prog) >= 2 /\ ~Full
         /\ (StepJoin \/ StepNest \/ StepUnnest)
         /\ UNCHANGED done
 Emit == /\ Full /\ ~done /\ done' = TRUE /\ UNCHANGED <<prog, env>>
         /\ PrintT(ToJson([spec |-> "Relational", prog |-> prog, env |-> env]))
-Next == Lit \/ AllOps \/ Step \/ Emit
+Next == Lit \/ AllOps \/ Step \/ ForkStep \/ Emit
 Spec == Init /\ [][Next]_vars
 
 TypeOK == Len(prog) = Len(env) /\ \A i \in DOMAIN env : prog[i].k # "allops" => IsSet(env[i])
